@@ -114,6 +114,9 @@ func PerformInputLookup(aggs *structs.QueryAggregators) error {
 	if !checkCSVFormat(filename) {
 		return fmt.Errorf("PerformInputLookup: Only .csv and .csv.gz formats are currently supported")
 	}
+	if !utils.IsSimpleFileName(filename) {
+		return fmt.Errorf("PerformInputLookup: Invalid lookup file name: %v", filename)
+	}
 
 	filePath := filepath.Join(config.GetLookupPath(), filename)
 
